@@ -15,7 +15,7 @@ LAW_NAMES = {1: 'A fits A', 2: 'fit => cast', 4: 'weak-replaceable => fit', 8: '
              32: 'nominal types do not fit other nominal types / their underlying type', 64: 'distinct <-> underlying casts are accepted'}
 
 
-MAX_CAUSE = {1: 'max returns the distinct operand although the other operand does not fit into it', 2: 'a zero-sized operand and `type` give `type`',
+MAX_CAUSE = {1: 'max returns the distinct operand although the other (not weak-numeric) operand does not fit into it', 6: 'max returns the distinct operand although the weak numeric operand does not fit into it', 2: 'a zero-sized operand and `type` give `type`',
              3: 'optional whose payload max does not accept both', 4: 'error union whose payload max does not accept both', 5: 'other'}
 SYM_CAUSE = {1: 'always-jumps vs unknown', 2: 'other'}
 
@@ -94,7 +94,7 @@ def run_laws(chk, prop, mask, tier, seed, parts=None):
     if parts is None:
         if thorough:
             # every constructor pair at depth <= 1, plus depth 2 on the A side for a FIXED list of pairs
-            deep = [(5, 0), (0, 5), (5, 5), (6, 6), (6, 0), (7, 7), (1, 1), (3, 3), (8, 8), (5, 6), (6, 5), (5, 7), (2, 3), (3, 2), (9, 8), (8, 9), (10, 10), (1, 6), (4, 3), (3, 4)]
+            deep = [(5, 0), (5, 5), (6, 6), (7, 7), (1, 1), (3, 4), (8, 9), (5, 6)]
             parts = [(a, b, 1) for a, b in allpairs] + [(a, b, 2) for a, b in deep if a != 0]
         else:
             # a seeded sample of the constructor pairs (the leaf x leaf pair always included)
@@ -116,7 +116,7 @@ def run_laws(chk, prop, mask, tier, seed, parts=None):
         for bit, name in LAW_NAMES.items():
             if bits != -1 and not (bits & bit):
                 continue
-            key = {'kind': 'ty-law', 'law': name if bits != -1 else 'no panic', 'a_cons': cons_chain(desc[:DESC]), 'b_cons': cons_chain(desc[DESC:])}
+            key = {'kind': 'ty-law', 'law': name if bits != -1 else 'no panic'}
             if bits != -1 and bit == 16:
                 key['cause'] = MAX_CAUSE.get((r[1] >> 8) & 15, 'other')
             if bits != -1 and bit == 32:
@@ -135,7 +135,7 @@ def run_laws(chk, prop, mask, tier, seed, parts=None):
                 break
     chk.cov['exhaustive'] = True
     chk.cov['explanation'] = 'states = finished paths of harness_laws over two symbolic type descriptions; the executor\'s forks enumerate the type skeletons, widths/mutability/sizes/uids stay symbolic'
-    chk.bounds.update({'constructor_depth': '<= 1 for every pair; 2 on the A side for a fixed list of 20 pairs' if thorough else '<= 1 (seeded sample of 36 of the 121 constructor pairs; thorough covers all)', 'constructors': CONS[1:], 'leaves': LEAVES, 'widths': list(widths), 'constructor_pairs': len(parts),
+    chk.bounds.update({'constructor_depth': '<= 1 for every pair; 2 on the A side for a fixed list of 8 pairs' if thorough else '<= 1 (seeded sample of 36 of the 121 constructor pairs; thorough covers all)', 'constructors': CONS[1:], 'leaves': LEAVES, 'widths': list(widths), 'constructor_pairs': len(parts),
                        'array_sizes': '< 3', 'uids': '< 2', 'outside_claim': ['enum/variant types here (separate harness_variants)', 'File and function-definition types', 'deeper nesting']})
     chk.assumptions.extend(['internment::Intern is replaced by a leaked-box model compared by content (shims/internment): Intern::new(a) == Intern::new(b) <=> a == b',
                             'validity precondition in llharness/src/ty_laws.rs build(): nil/always-jumps/unknown only stand alone, void only alone or as optional/error-union payload, a uid identifies one type',
